@@ -11,6 +11,7 @@ macro_rules! per_impl {
             use blsful::*;
             use rand_core::SeedableRng;
             pub type C = $C;
+            pub const G1: bool = stringify!($m).len() == 2 && stringify!($m).as_bytes()[1] == b'1';
 
 pub fn sig_pt(d: &[u8; 32]) -> <C as Pairing>::Signature {
     <C as Pairing>::Signature::generator() * bsc(d)
@@ -533,6 +534,54 @@ pub fn run_op(op: &str, a: &[Tok]) -> String {
                 Some(k) => format!("some:{}", hex::encode(k.to_be_bytes())),
                 None => "none".into(),
             }
+        }
+        // every hash-based key / challenge constructor of the public API on the same data
+        "keygen_hash" => {
+            let d = a[0].bytes();
+            let t = if G1 { Bls12381::G1 } else { Bls12381::G2 };
+            let e = match SecretKeyEnum::from_hash(t, d) {
+                SecretKeyEnum::G1(k) => hex::encode(k.to_be_bytes()),
+                SecretKeyEnum::G2(k) => hex::encode(k.to_be_bytes()),
+            };
+            format!(
+                "{}:{}:{}:{}:{}",
+                hex::encode(bsc_be(&SecretKey::<C>::from_hash(d).0)),
+                hex::encode(bsc_be(&BlsSignature::<C>::secret_key_from_hash(d).0)),
+                e,
+                hex::encode(bsc_be(&ProofCommitmentChallenge::<C>::from_hash(d).0)),
+                hex::encode(bsc_be(&BlsSignature::<C>::proof_challenge_from_hash(d).0))
+            )
+        }
+        // every constructor that takes a caller-supplied generator, each on a fresh ChaCha20 stream of the same seed
+        "keygen_seeded" => {
+            use rand_chacha::ChaCha20Rng;
+            use rand_core::SeedableRng;
+            let seed = arr32(a[0].bytes());
+            let t = if G1 { Bls12381::G1 } else { Bls12381::G2 };
+            let e = match SecretKeyEnum::random(t, ChaCha20Rng::from_seed(seed)) {
+                SecretKeyEnum::G1(k) => hex::encode(k.to_be_bytes()),
+                SecretKeyEnum::G2(k) => hex::encode(k.to_be_bytes()),
+            };
+            format!(
+                "{}:{}:{}:{}:{}",
+                hex::encode(bsc_be(&SecretKey::<C>::random(ChaCha20Rng::from_seed(seed)).0)),
+                hex::encode(bsc_be(&BlsSignature::<C>::random_secret_key(ChaCha20Rng::from_seed(seed)).0)),
+                e,
+                hex::encode(bsc_be(&ProofCommitmentChallenge::<C>::random(ChaCha20Rng::from_seed(seed)).0)),
+                hex::encode(bsc_be(&BlsSignature::<C>::random_proof_challenge(ChaCha20Rng::from_seed(seed)).0))
+            )
+        }
+        // the constructors that draw from the process entropy source, one tapped seed each
+        "keygen_tap" => {
+            let t = if G1 { Bls12381::G1 } else { Bls12381::G2 };
+            let (k1, d1) = with_seeds(&a[0..1], || BlsSignature::<C>::new_secret_key());
+            let (k2, d2) = with_seeds(&a[1..2], || BlsSignature::<C>::new_proof_challenge());
+            let (k3, d3) = with_seeds(&a[2..3], || SecretKeyEnum::new(t));
+            let e = match k3 {
+                SecretKeyEnum::G1(k) => hex::encode(k.to_be_bytes()),
+                SecretKeyEnum::G2(k) => hex::encode(k.to_be_bytes()),
+            };
+            format!("{}:draws={}:{}:draws={}:{}:draws={}", hex::encode(bsc_be(&k1.0)), d1, hex::encode(bsc_be(&k2.0)), d2, e, d3)
         }
         "sk_new" => {
             let (k, d) = with_seeds(&a[0..1], || SecretKey::<C>::new());
